@@ -55,6 +55,11 @@ def main():
                 rec['demo_passes_without'] = rc == 0
                 os.remove(os.path.join(wt, demo_name))
             rc, out = sh(['git', 'apply', patch], cwd=wt)
+            if rc != 0:
+                # the tree moved on since the change was written (later fix: / hook commits): three-way merge
+                rc, out = sh(['git', 'apply', '-3', patch], cwd=wt)
+                rec['applied_three_way'] = rc == 0
+                sh(['git', 'reset', '-q'], cwd=wt)
             rec['applies'] = rc == 0
             if rc != 0:
                 rec['note'] = out[-500:]
